@@ -72,6 +72,8 @@ def check_docs(chk, label, cases, obs, metas=None):
             chk.violation("C03|yaml-roundtrip", "%s: the YAML text does not parse back to the same document: %r" % (label, text[:120]),
                           {"files": hc["files"], "reparse_err": o["emit"].get("reparse_err")})
         for kind, what in validate.validate(o.get("doc")):
+            if kind == "component-is-only-a-reference-cycle":
+                continue          # every $ref still resolves; that such a component holds no schema is C09's subject
             key = "C03|%s" % kind
             if kind == "duplicate-operationId":
                 # synthesized (no operationId annotation in the sources) or supplied by the user
